@@ -280,6 +280,21 @@ func Solve(q *Query, dir string, timeoutS int, seed int, cross bool) SolveResult
 				return best
 			}
 		}
+		// every solver gave up: unsat does not depend on the seed, so try other seeds of the
+		// first solver before calling the obligation undecided (seed-sensitive instantiation)
+		ch2 := make(chan SolveResult, 3)
+		for k := 1; k <= 3; k++ {
+			go func(k int) { ch2 <- runSolver(solvers[0], file, timeoutS, seed+k*7919) }(k)
+		}
+		for i := 0; i < 3; i++ {
+			x := <-ch2
+			if x.Status == "unsat" || x.Status == "sat" {
+				x.Ms += r.Ms
+				x.Solver += ":reseeded"
+				x.Model = parseModel(q, x.Raw)
+				return x
+			}
+		}
 		return best
 	}
 	var results []SolveResult
